@@ -233,6 +233,17 @@ def hierarchy_ref_fields(spec):
     return out
 
 
+def _alt_cycle_problem(p, spec):
+    """the problem sits on a reference to an alternatively mapped class that can be part of a cycle
+    (declared in the spec as alt_cycle_fields) and is an identity / class problem"""
+    import re
+    fields = set(spec.get("alt_cycle_fields", ()))
+    mm = re.match(r"(.*)\.(\w+)(\[\d+\]|\{\d+\})?: (.*)$", p)
+    if not mm or mm.group(2) not in fields:
+        return False
+    return "aliasing lost" in mm.group(4) or "class " in mm.group(4) or "became one object" in mm.group(4)
+
+
 def run(m, iface, seed, n, opts):
     from krrood.ormatic.dao import to_dao, get_dao_class, ToDAOState, FromDAOState
     spec = opts["spec"]
@@ -279,7 +290,8 @@ def run(m, iface, seed, n, opts):
             except Exception as e:
                 problems.append(f"exception {type(e).__name__}: {e}"[:300])
             if problems:
-                out["failures"].append({"check": "C04", "i": i, "problems": problems[:4], "hier": uses_hier, "shape": shape})
+                out["failures"].append({"check": "C04", "i": i, "problems": problems[:4], "hier": uses_hier, "shape": shape,
+                                        "only_alt_mapped_cycle": all(_alt_cycle_problem(p, spec) for p in problems)})
         if mode in ("c05", "both"):
             problems = db_roundtrip(m, iface, spec, root, C)
             if problems:
@@ -291,7 +303,8 @@ def run(m, iface, seed, n, opts):
                     return bool(mm) and mm.group(1) in hier_names
 
                 out["failures"].append({"check": "C05", "i": i, "problems": problems[:4], "hier": uses_hier, "shape": shape,
-                                        "only_hierarchy_reference_lost": all(hier_loss(p) for p in problems)})
+                                        "only_hierarchy_reference_lost": all(hier_loss(p) for p in problems),
+                                        "only_alt_mapped_cycle": all(_alt_cycle_problem(p, spec) for p in problems)})
     out["counters"] = dict(C)
     return out
 
